@@ -42,7 +42,7 @@ FULL = {
    note=BASE_NOTE + 'The model has no addresses: that the Rust handle keeps no hidden state and that links are indices, not pointers, is established by the three-way differential run, not by a theorem.',
    technique=TECH),
  'C05': dict(
-   text='Frame theorem for the only raw-pointer accesses of the crate (the two ptr::copy of the array sets), modelled as an UNCHECKED memmove over a flat memory containing arbitrary guard cells on both sides: every operation leaves the guards unchanged and its result and contents are independent of them, for every history; a negative control shows the theorem fails for the upstream copy count. All other code is safe Rust whose out-of-range index is a panic; the model shows that panic unreachable (C12). Tie: buffers embedded in guard regions under two fill patterns (results must not differ, guards must be intact), audit of every unsafe site in /repo/src against an audited list.',
+   text='Frame theorem for the only raw-pointer accesses of the crate (the two ptr::copy of the array sets), modelled as an UNCHECKED memmove over a flat memory containing arbitrary guard cells on both sides: every operation leaves the guards unchanged and its result and contents are independent of them, for every history; a negative control shows the theorem fails for the upstream copy count. Since the repair of D13 (the shift trusted the length prefix of the caller bytes) the code uses the checked copy_within; Arr/Checked.v models it, proves it equal to the unchecked model on invariant states and proves the frame and guard-independence properties for ALL states, reachable or not. All other code is safe Rust whose out-of-range index is a panic; the model shows that panic unreachable (C12). Tie: buffers embedded in guard regions under two fill patterns (results must not differ, guards must be intact), views over bytes that are not a reachable state (corrupted headers and links, cut buffers, re-initialised collections) on the implementation alone, audit of every unsafe site in /repo/src against an audited list.',
    note=BASE_NOTE + 'That safe Rust cannot touch memory outside its slices is the language guarantee (trusted); from_utf8_unchecked sites rely on C11.',
    technique=TECH),
  'C06': dict(
